@@ -1,4 +1,1008 @@
-//! ephemeral: not built yet.
-pub fn run(args: &vh_common::Args) {
-    vh_common::unknown(args)
+//! Ephemeral (C17, tampering half of C16): the real `EphemeralStreamSubscription` /
+//! `EphemeralStreamPublisher` of p2panda over a real `GossipHandle`, against spec/Ephemeral.
+//!
+//! No network: a harness-owned probe actor stands in for the gossip manager and answers
+//! `ToGossipManager::Subscribe` with channels the harness created (hook `Gossip::verif_new`), so
+//! `Gossip::stream` returns a real `GossipHandle` whose broadcast sender (network -> subscription)
+//! and mpsc receiver (publisher -> network) the harness holds. The streams are built by
+//! `p2panda::verif_api::verif_ephemeral_stream` (the crate-private `ephemeral_stream`).
+//!
+//! The subscription is polled BY HAND with a counting waker, and only the way an executor would
+//! poll a task `while let Some(m) = rx.next().await {..}`: first once, again after a yielded
+//! item, otherwise only after the waker was woken. All polling happens outside a tokio task so
+//! that tokio's cooperative budget never interferes. Production clock (this package does not
+//! enable `p2panda-core/test_utils`).
+//!
+//! Bytes: every item class of the specification is concretised from bytes the REAL publisher
+//! produced (captured on the mpsc side), modified field by field through their CBOR form.
+use std::collections::{BTreeMap, BTreeSet};
+use std::future::Future;
+use std::pin::Pin;
+use std::sync::Arc;
+use std::sync::atomic::{AtomicBool, AtomicU64, Ordering};
+use std::task::{Context, Poll, Wake, Waker};
+
+use ciborium::Value as Cbor;
+use futures_util::Stream;
+use p2panda::streams::{EphemeralMessage, EphemeralStreamPublisher, EphemeralStreamSubscription};
+use p2panda::verif_api::{OperationForge, verif_ephemeral_stream};
+use p2panda_core::{SigningKey, Topic, VerifyingKey};
+use p2panda_net::AddressBook;
+use p2panda_net::gossip::{Gossip, GossipConfig, ToGossipManager};
+use p2panda_store::SqliteStore;
+use ractor::{Actor, ActorProcessingErr, ActorRef};
+use tokio::runtime::Runtime;
+use tokio::sync::{broadcast, mpsc};
+use vh_common::{Args, Outcome, Rng, TraceWriter, Value, catch, json, read_ndjson, unknown};
+
+pub fn run(args: &Args) {
+    match args.mode.as_str() {
+        "replay" => replay(args),
+        "record" => record(args),
+        _ => unknown(args),
+    }
 }
+
+// ------------------------------------------------------------------------------------------------
+// rig: real gossip handle + ephemeral stream over harness-owned channels
+
+type Channels = (mpsc::Sender<Vec<u8>>, broadcast::Sender<Vec<u8>>);
+
+/// Stand-in for the gossip manager actor: answers the (one) `Subscribe` with the prepared channels
+/// and keeps no clone of them, so that the harness controls when the last sender goes away.
+struct Probe;
+
+impl Actor for Probe {
+    type Msg = ToGossipManager;
+    type State = Option<Channels>;
+    type Arguments = Channels;
+
+    async fn pre_start(&self, _me: ActorRef<Self::Msg>, args: Channels) -> Result<Self::State, ActorProcessingErr> {
+        Ok(Some(args))
+    }
+
+    async fn handle(
+        &self,
+        _me: ActorRef<Self::Msg>,
+        message: Self::Msg,
+        state: &mut Self::State,
+    ) -> Result<(), ActorProcessingErr> {
+        if let ToGossipManager::Subscribe(_topic, _nodes, reply) = message
+            && let Some(channels) = state.take()
+        {
+            let _ = reply.send(channels);
+        }
+        Ok(())
+    }
+}
+
+pub struct Env {
+    rt: Runtime,
+    address_book: AddressBook,
+    store: SqliteStore,
+    topics: AtomicU64,
+}
+
+impl Env {
+    pub fn new() -> Env {
+        let rt = tokio::runtime::Builder::new_current_thread().enable_all().build().expect("runtime");
+        let (address_book, store) = rt.block_on(async {
+            (
+                AddressBook::builder().spawn().await.expect("address book"),
+                SqliteStore::temporary().await,
+            )
+        });
+        Env { rt, address_book, store, topics: AtomicU64::new(1) }
+    }
+
+    /// A fresh topic with its own probe, `Gossip`, handle, publisher and subscription.
+    pub fn stream(&self, key: &SigningKey, cap: usize) -> EphStream {
+        let n = self.topics.fetch_add(1, Ordering::SeqCst);
+        let mut t = [0u8; 32];
+        t[..8].copy_from_slice(&n.to_be_bytes());
+        let topic = Topic::from(t);
+        let (to_tx, to_rx) = mpsc::channel::<Vec<u8>>(1024);
+        let (from_tx, from_rx0) = broadcast::channel::<Vec<u8>>(cap);
+        drop(from_rx0);
+        let forge = OperationForge::from_signing_key(key.clone(), self.store.clone());
+        let (gossip, publisher, sub) = self.rt.block_on(async {
+            let (actor, _join) = Actor::spawn(None, Probe, (to_tx, from_tx.clone())).await.expect("spawn probe");
+            let gossip = Gossip::verif_new(actor, key.verifying_key(), self.address_book.clone(), GossipConfig::default());
+            let handle = gossip.stream(topic).await.expect("gossip stream");
+            let (publisher, sub) = verif_ephemeral_stream::<String>(topic, forge, handle);
+            (gossip, publisher, sub)
+        });
+        EphStream {
+            topic,
+            gossip: Some(gossip),
+            publisher: Some(publisher),
+            sub: Box::pin(sub),
+            from_tx: Some(from_tx),
+            to_rx,
+            flag: Arc::new(WakeFlag::default()),
+            woken_by_env: false,
+            done: false,
+        }
+    }
+}
+
+#[derive(Default)]
+pub struct WakeFlag {
+    woken: AtomicBool,
+    count: AtomicU64,
+}
+
+impl Wake for WakeFlag {
+    fn wake(self: Arc<Self>) {
+        self.wake_by_ref()
+    }
+    fn wake_by_ref(self: &Arc<Self>) {
+        self.woken.store(true, Ordering::SeqCst);
+        self.count.fetch_add(1, Ordering::SeqCst);
+    }
+}
+
+pub enum Turn {
+    Yield(EphemeralMessage<String>),
+    Parked,
+    Done,
+    /// poll_next kept returning Pending while waking itself (never seen; guards the harness loop)
+    Spinning,
+}
+
+pub struct EphStream {
+    pub topic: Topic,
+    gossip: Option<Gossip>,
+    publisher: Option<EphemeralStreamPublisher<String>>,
+    sub: Pin<Box<EphemeralStreamSubscription<String>>>,
+    from_tx: Option<broadcast::Sender<Vec<u8>>>,
+    to_rx: mpsc::Receiver<Vec<u8>>,
+    flag: Arc<WakeFlag>,
+    woken_by_env: bool,
+    pub done: bool,
+}
+
+impl EphStream {
+    /// The real publisher signs and publishes `body`; returns the bytes it handed to gossip.
+    pub fn publish(&mut self, env: &Env, body: &str) -> Vec<u8> {
+        let publisher = self.publisher.as_ref().expect("publisher alive");
+        env.rt.block_on(publisher.publish(body.to_string())).expect("publish");
+        self.to_rx.try_recv().expect("published bytes on the gossip channel")
+    }
+
+    /// The network delivers `bytes` to the subscription. Returns whether the task was woken.
+    pub fn send(&mut self, bytes: Vec<u8>) -> bool {
+        let before = self.flag.count.load(Ordering::SeqCst);
+        let _ = self.from_tx.as_ref().expect("not closed").send(bytes);
+        self.flag.count.load(Ordering::SeqCst) > before
+    }
+
+    /// Every sender of the broadcast channel is dropped.
+    pub fn close(&mut self) -> bool {
+        let before = self.flag.count.load(Ordering::SeqCst);
+        self.publisher = None; // GossipHandle (holds a sender)
+        self.gossip = None; // `senders` map of the Gossip API object
+        self.from_tx = None;
+        self.flag.count.load(Ordering::SeqCst) > before
+    }
+
+    pub fn closed(&self) -> bool {
+        self.from_tx.is_none()
+    }
+
+    /// Would an executor poll the task now?
+    pub fn runnable(&self) -> bool {
+        !self.done && (self.woken_by_env || self.flag.woken.load(Ordering::SeqCst))
+    }
+
+    pub fn mark_spawned(&mut self) {
+        self.woken_by_env = true; // a freshly spawned task is polled once
+    }
+
+    /// One call of the real `poll_next` with the counting waker.
+    pub fn poll_once(&mut self) -> Poll<Option<EphemeralMessage<String>>> {
+        self.woken_by_env = false;
+        self.flag.woken.store(false, Ordering::SeqCst);
+        let waker = Waker::from(self.flag.clone());
+        let mut cx = Context::from_waker(&waker);
+        let r = self.sub.as_mut().poll_next(&mut cx);
+        match &r {
+            Poll::Ready(Some(_)) => self.woken_by_env = true, // the consumer loop calls next() again
+            Poll::Ready(None) => self.done = true,
+            Poll::Pending => {}
+        }
+        r
+    }
+
+    /// One executor turn of the consumer task: poll; while the call returns Pending but woke its own
+    /// waker, poll again. Ends with an item, the end of the stream, or the task parked.
+    pub fn turn(&mut self) -> Turn {
+        for _ in 0..100_000 {
+            match self.poll_once() {
+                Poll::Ready(Some(m)) => return Turn::Yield(m),
+                Poll::Ready(None) => return Turn::Done,
+                Poll::Pending => {
+                    if !self.flag.woken.load(Ordering::SeqCst) {
+                        return Turn::Parked;
+                    }
+                }
+            }
+        }
+        Turn::Spinning
+    }
+}
+
+// ------------------------------------------------------------------------------------------------
+// byte-level concretisation of the item classes
+
+fn cbor_fields(bytes: &[u8]) -> Vec<Cbor> {
+    match ciborium::from_reader::<Cbor, _>(bytes).expect("publisher bytes are CBOR") {
+        Cbor::Array(v) => v,
+        other => panic!("publisher bytes are not a CBOR array: {other:?}"),
+    }
+}
+
+fn cbor_bytes(v: &Cbor) -> Vec<u8> {
+    let mut out = Vec::new();
+    ciborium::into_writer(v, &mut out).expect("encode");
+    out
+}
+
+fn enc(fields: &[Cbor]) -> Vec<u8> {
+    cbor_bytes(&Cbor::Array(fields.to_vec()))
+}
+
+fn as_u64(v: &Cbor) -> u64 {
+    match v {
+        Cbor::Integer(i) => u64::try_from(*i).expect("u64"),
+        other => panic!("not an integer: {other:?}"),
+    }
+}
+
+fn as_bytes(v: &Cbor) -> Vec<u8> {
+    match v {
+        Cbor::Bytes(b) => b.clone(),
+        other => panic!("not bytes: {other:?}"),
+    }
+}
+
+fn flip(bytes: &[u8], bit: usize) -> Vec<u8> {
+    let mut b = bytes.to_vec();
+    b[bit / 8] ^= 1 << (bit % 8);
+    b
+}
+
+/// Field indices of the wrapped message tuple (ephemeral_stream.rs:31-40).
+const F_VERSION: usize = 0;
+const F_KEY: usize = 1;
+const F_SIG: usize = 2;
+const F_TS: usize = 3;
+const F_LOGICAL: usize = 4;
+const F_BODY: usize = 5;
+
+/// What the signature covers (ephemeral_stream.rs:141-152): (version, key, timestamp, logical, body).
+fn signed_payload(f: &[Cbor]) -> Vec<u8> {
+    enc(&[f[F_VERSION].clone(), f[F_KEY].clone(), f[F_TS].clone(), f[F_LOGICAL].clone(), f[F_BODY].clone()])
+}
+
+pub struct Mint {
+    key_a: SigningKey,
+    key_b: SigningKey,
+    a: EphStream,
+    b: EphStream,
+}
+
+/// Who must be reported as author if the item is yielded.
+#[derive(Clone, Copy, PartialEq, Eq, Debug)]
+pub enum Author {
+    A,
+    B,
+}
+
+pub struct Item {
+    pub variant: String,
+    pub bytes: Vec<u8>,
+}
+
+/// Flips inside the first byte (the CBOR header of the tuple: array of 6). What the decoder makes
+/// of a wrong element count is its own business (ciborium accepts a LONGER declared array and
+/// ignores the rest; a shorter one or another major type fails); the specification gives no
+/// verdict for these, they are judged by the property alone: if something is yielded, it must
+/// carry exactly the signed fields.
+pub fn header_flips(orig: &[u8]) -> Vec<Item> {
+    (0..8).map(|bit| Item { variant: format!("header-bit-{bit}"), bytes: flip(orig, bit) }).collect()
+}
+
+impl Mint {
+    pub fn new(env: &Env) -> Mint {
+        let key_a = SigningKey::from_bytes(&[0xA1; 32]);
+        let key_b = SigningKey::from_bytes(&[0xB2; 32]);
+        let a = env.stream(&key_a, 4);
+        let b = env.stream(&key_b, 4);
+        Mint { key_a, key_b, a, b }
+    }
+
+    pub fn key(&self, who: Author) -> VerifyingKey {
+        match who {
+            Author::A => self.key_a.verifying_key(),
+            Author::B => self.key_b.verifying_key(),
+        }
+    }
+
+    pub fn body(id: u64) -> String {
+        format!("m{id}: now playing")
+    }
+
+    /// All byte-level variants of one item class for the message with id `id`. `limit` caps the
+    /// number of bit-flip / prefix variants (None = all).
+    pub fn variants(&mut self, env: &Env, cls: &str, id: u64, rng: &mut Rng, limit: Option<usize>) -> (Vec<u8>, Vec<Item>) {
+        let body = Mint::body(id);
+        let orig = self.a.publish(env, &body);
+        let f = cbor_fields(&orig);
+        assert_eq!(enc(&f), orig, "harness CBOR re-encoding must be byte-identical for untouched fields");
+        let mut out: Vec<Item> = Vec::new();
+        let mut push = |name: String, bytes: Vec<u8>| out.push(Item { variant: name, bytes });
+        let with = |idx: usize, v: Cbor| {
+            let mut g = f.clone();
+            g[idx] = v;
+            enc(&g)
+        };
+        let sample = |n: usize, rng: &mut Rng| -> Vec<usize> {
+            match limit {
+                Some(l) if l < n => {
+                    let mut s: BTreeSet<usize> = BTreeSet::new();
+                    s.insert(0);
+                    s.insert(n - 1);
+                    while s.len() < l {
+                        s.insert(rng.below(n as u64) as usize);
+                    }
+                    s.into_iter().collect()
+                }
+                _ => (0..n).collect(),
+            }
+        };
+        let key_b_bytes = self.key_b.verifying_key().as_bytes().to_vec();
+        match cls {
+            "intact" => push("as-published".into(), orig.clone()),
+            "trailing_bytes" => {
+                for extra in [vec![0u8], vec![0xff], b"garbage after the message".to_vec(), orig.clone()] {
+                    let mut b = orig.clone();
+                    b.extend_from_slice(&extra);
+                    push(format!("plus-{}-bytes", extra.len()), b);
+                }
+                // a seventh array element after the six fields is ignored in the same way
+                let mut seven = f.clone();
+                seven.push(Cbor::Integer(0u64.into()));
+                push("seventh-array-element".into(), enc(&seven));
+            }
+            "foreign_intact" => {
+                let bytes = self.b.publish(env, &body);
+                push("published-by-foreign-key".into(), bytes);
+                // the foreign key holder copies the publisher's timestamp and body and signs them himself
+                let mut g = f.clone();
+                g[F_KEY] = Cbor::Bytes(key_b_bytes.clone());
+                let sig = self.key_b.sign(&signed_payload(&g));
+                g[F_SIG] = Cbor::Bytes(sig.to_bytes().to_vec());
+                push("resigned-copy-own-author".into(), enc(&g));
+            }
+            "flip_version" => {
+                for v in [0u64, 2, 3, 255, u64::MAX] {
+                    push(format!("version={v}"), with(F_VERSION, Cbor::Integer(v.into())));
+                }
+            }
+            "version2_signed" => {
+                for (name, key) in [("own-key", self.key_a.clone()), ("foreign-key", self.key_b.clone())] {
+                    let mut g = f.clone();
+                    g[F_VERSION] = Cbor::Integer(2u64.into());
+                    g[F_KEY] = Cbor::Bytes(key.verifying_key().as_bytes().to_vec());
+                    let sig = key.sign(&signed_payload(&g));
+                    g[F_SIG] = Cbor::Bytes(sig.to_bytes().to_vec());
+                    push(format!("v2-signed-by-{name}"), enc(&g));
+                }
+            }
+            "swap_key" => {
+                push("foreign-key".into(), with(F_KEY, Cbor::Bytes(key_b_bytes.clone())));
+                push(
+                    "fresh-key".into(),
+                    with(F_KEY, Cbor::Bytes(SigningKey::from_bytes(&[id as u8 ^ 0x5c; 32]).verifying_key().as_bytes().to_vec())),
+                );
+                push("all-zero-key".into(), with(F_KEY, Cbor::Bytes(vec![0; 32])));
+                push("all-ff-key".into(), with(F_KEY, Cbor::Bytes(vec![0xff; 32])));
+                push("short-key".into(), with(F_KEY, Cbor::Bytes(vec![1; 31])));
+                let key = as_bytes(&f[F_KEY]);
+                for bit in sample(256, rng) {
+                    push(format!("key-bit-{bit}"), with(F_KEY, Cbor::Bytes(flip(&key, bit))));
+                }
+            }
+            "flip_sig" => {
+                let sig = as_bytes(&f[F_SIG]);
+                for bit in sample(512, rng) {
+                    push(format!("sig-bit-{bit}"), with(F_SIG, Cbor::Bytes(flip(&sig, bit))));
+                }
+                push("all-zero-sig".into(), with(F_SIG, Cbor::Bytes(vec![0; 64])));
+                push("short-sig".into(), with(F_SIG, Cbor::Bytes(sig[..63].to_vec())));
+                // signature of ANOTHER message of the same author
+                let other = cbor_fields(&self.a.publish(env, "another message"));
+                push("sig-of-other-message".into(), with(F_SIG, other[F_SIG].clone()));
+            }
+            "flip_ts" => {
+                let ts = as_u64(&f[F_TS]);
+                for bit in sample(64, rng) {
+                    push(format!("ts-bit-{bit}"), with(F_TS, Cbor::Integer((ts ^ (1u64 << bit)).into())));
+                }
+                for v in [0, ts - 1, ts + 1, u64::MAX] {
+                    push(format!("ts={v}"), with(F_TS, Cbor::Integer(v.into())));
+                }
+            }
+            "flip_logical" => {
+                let l = as_u64(&f[F_LOGICAL]);
+                for bit in sample(64, rng) {
+                    push(format!("logical-bit-{bit}"), with(F_LOGICAL, Cbor::Integer((l ^ (1u64 << bit)).into())));
+                }
+                for v in [l + 1, l + 2, u64::MAX] {
+                    push(format!("logical={v}"), with(F_LOGICAL, Cbor::Integer(v.into())));
+                }
+            }
+            "flip_body" => {
+                let bb = body.as_bytes();
+                for bit in sample(bb.len() * 8, rng) {
+                    let flipped = flip(bb, bit);
+                    match String::from_utf8(flipped.clone()) {
+                        Ok(s) => push(format!("body-bit-{bit}"), with(F_BODY, Cbor::Text(s))),
+                        // not UTF-8 any more: only expressible on the raw bytes (decode fails -> rejected too)
+                        Err(_) => {
+                            let pos = orig.len() - bb.len() + bit / 8;
+                            push(format!("body-bit-{bit}-raw"), flip(&orig, pos * 8 + bit % 8));
+                        }
+                    }
+                }
+                push("empty-body".into(), with(F_BODY, Cbor::Text(String::new())));
+                push("appended".into(), with(F_BODY, Cbor::Text(format!("{body}!"))));
+                // body of ANOTHER message of the same author under this message's signature
+                push("body-of-other-message".into(), with(F_BODY, Cbor::Text("another message".into())));
+            }
+            "foreign_sig_keep_author" => {
+                // the attack C16 is about: a foreign key signs exactly the fields that name A as author
+                let sig = self.key_b.sign(&signed_payload(&f));
+                push("same-fields".into(), with(F_SIG, Cbor::Bytes(sig.to_bytes().to_vec())));
+                let mut g = f.clone();
+                g[F_BODY] = Cbor::Text("forged in A's name".into());
+                let sig = self.key_b.sign(&signed_payload(&g));
+                g[F_SIG] = Cbor::Bytes(sig.to_bytes().to_vec());
+                push("forged-body".into(), enc(&g));
+                // a complete foreign message with only the author field swapped back to A
+                let mut h = cbor_fields(&self.b.publish(env, &body));
+                h[F_KEY] = f[F_KEY].clone();
+                push("foreign-message-author-swapped".into(), enc(&h));
+            }
+            "truncated" => {
+                for n in sample(orig.len(), rng) {
+                    push(format!("prefix-{n}"), orig[..n].to_vec());
+                }
+            }
+            "garbage" => {
+                push("empty".into(), vec![]);
+                push("one-byte".into(), vec![0x42]);
+                push("random".into(), rng.bytes(orig.len()));
+                push("five-fields".into(), enc(&f[..5]));
+                push("map".into(), cbor_bytes(&Cbor::Map(vec![(Cbor::Text("version".into()), Cbor::Integer(1u64.into()))])));
+                push("text".into(), cbor_bytes(&Cbor::Text("hello".into())));
+                push("fields-reordered".into(), enc(&[f[1].clone(), f[0].clone(), f[2].clone(), f[3].clone(), f[4].clone(), f[5].clone()]));
+            }
+            "wrong_body_type" => {
+                push("body-int".into(), with(F_BODY, Cbor::Integer(7u64.into())));
+                push("body-bytes".into(), with(F_BODY, Cbor::Bytes(body.as_bytes().to_vec())));
+                push("body-array".into(), with(F_BODY, Cbor::Array(vec![Cbor::Text(body.clone())])));
+                push("body-null".into(), with(F_BODY, Cbor::Null));
+                push("key-as-text".into(), with(F_KEY, Cbor::Text(self.key_a.verifying_key().to_hex())));
+                push("ts-as-text".into(), with(F_TS, Cbor::Text("12".into())));
+                push("version-negative".into(), with(F_VERSION, Cbor::Integer((-1i64).into())));
+            }
+            "bitflip_any" => {
+                // every bit after the tuple header byte (see `header_flips` for that one)
+                for bit in sample(orig.len() * 8 - 8, rng) {
+                    push(format!("bit-{}", bit + 8), flip(&orig, bit + 8));
+                }
+            }
+            other => {
+                eprintln!("unknown item class {other}");
+                std::process::exit(2);
+            }
+        }
+        drop(push);
+        (orig, out)
+    }
+
+    /// Sanity of the harness's own forging: the signature the harness computes in ITS rendering of
+    /// the signed payload with A's key equals the one the real publisher produced.
+    pub fn forging_format_is_right(&mut self, env: &Env) -> bool {
+        let orig = self.a.publish(env, "format probe");
+        let f = cbor_fields(&orig);
+        self.key_a.sign(&signed_payload(&f)).to_bytes().to_vec() == as_bytes(&f[F_SIG])
+    }
+
+    /// One variant of the class (seeded choice) for use inside a scheduled behaviour.
+    pub fn one(&mut self, env: &Env, cls: &str, id: u64, rng: &mut Rng) -> (Vec<u8>, Item) {
+        let (orig, mut v) = self.variants(env, cls, id, rng, Some(6));
+        let k = rng.below(v.len() as u64) as usize;
+        (orig, v.swap_remove(k))
+    }
+}
+
+fn authentic_author(cls: &str) -> Option<Author> {
+    match cls {
+        "intact" | "trailing_bytes" => Some(Author::A),
+        "foreign_intact" => Some(Author::B),
+        _ => None,
+    }
+}
+
+/// What the harness knows about an item it delivered.
+struct Entry {
+    cls: String,
+    variant: String,
+    /// the delivered bytes
+    bytes: Vec<u8>,
+    /// the bytes publisher A really produced for this id (what the tampering started from)
+    orig: Vec<u8>,
+}
+
+#[derive(Default)]
+struct Ledger {
+    items: BTreeMap<u64, Entry>,
+}
+
+enum Judged {
+    /// the reported author, timestamp and body are those of an authentic delivered item
+    Authentic,
+    /// a non-authentic CLASS was yielded, but with exactly the fields publisher A signed: the
+    /// modification did not touch the message (an encoding variant), nothing forged was yielded
+    SameFieldsAsSigned,
+    /// C16 broken: (signature, detail)
+    Forged(String, String),
+}
+
+impl Ledger {
+    fn add(&mut self, id: u64, cls: &str, orig: Vec<u8>, item: &Item) {
+        self.items.insert(id, Entry { cls: cls.to_string(), variant: item.variant.clone(), bytes: item.bytes.clone(), orig });
+    }
+
+    /// Identify a yielded message and judge it on the property's own terms (C16).
+    fn judge(&self, mint: &Mint, topic: Topic, m: &EphemeralMessage<String>) -> (u64, Judged) {
+        let id = m
+            .body()
+            .strip_prefix('m')
+            .and_then(|r| r.split(':').next())
+            .and_then(|n| n.parse::<u64>().ok())
+            .unwrap_or(0);
+        let Some(e) = self.items.get(&id).filter(|_| *m.body() == Mint::body(id)) else {
+            // a body nobody signed; find the item it came from for the report
+            return (
+                id,
+                Judged::Forged(
+                    "tampered-message-yielded".into(),
+                    format!("yielded author {} ts {} body {:?}: no authentic item carries this body", m.author().to_hex(), m.timestamp(), m.body()),
+                ),
+            );
+        };
+        let same = |bytes: &[u8], author: Author| {
+            let f = cbor_fields(bytes);
+            m.author() == mint.key(author) && m.timestamp() == as_u64(&f[F_TS]) && m.topic() == topic
+        };
+        match authentic_author(&e.cls) {
+            Some(author) if same(&e.bytes, author) => (id, Judged::Authentic),
+            Some(author) => (
+                id,
+                Judged::Forged(
+                    "yielded-fields-differ".into(),
+                    format!(
+                        "item {id} ({}/{}) yielded with author {} ts {} body {:?}; the delivered authentic bytes say author {author:?} ts {}",
+                        e.cls,
+                        e.variant,
+                        m.author().to_hex(),
+                        m.timestamp(),
+                        m.body(),
+                        as_u64(&cbor_fields(&e.bytes)[F_TS])
+                    ),
+                ),
+            ),
+            None if same(&e.orig, Author::A) => (id, Judged::SameFieldsAsSigned),
+            None => (
+                id,
+                Judged::Forged(
+                    "tampered-message-yielded".into(),
+                    format!(
+                        "item {id} of class {} (variant {}) was yielded: author {} ts {} body {:?}",
+                        e.cls,
+                        e.variant,
+                        m.author().to_hex(),
+                        m.timestamp(),
+                        m.body()
+                    ),
+                ),
+            ),
+        }
+    }
+}
+
+// ------------------------------------------------------------------------------------------------
+// replay
+
+fn replay(args: &Args) {
+    let behaviours = read_ndjson(args.input.as_ref().expect("--in"));
+    let mut out = Outcome::new(
+        args,
+        "sub: every exported schedule of deliveries / closes / executor turns executed on the real EphemeralStreamSubscription with \
+         real bytes per item class, polled only when woken (non-trivial = contains a rejected or lagged item before a later valid one; \
+         distinct by schedule); class: every byte-level variant of every item class through a real subscription (distinct by class x variant)",
+    );
+    let env = Env::new();
+    let mut mint = Mint::new(&env);
+    if !mint.forging_format_is_right(&env) {
+        eprintln!("harness forging format differs from the publisher's signed payload");
+        std::process::exit(2);
+    }
+    let mut rng = Rng::new(args.seed);
+    let limit = if args.thorough() { None } else { Some(48) };
+    for (bi, b) in behaviours.iter().enumerate() {
+        match b["kind"].as_str() {
+            Some("sub") => {
+                let mut brng = Rng::new(args.seed ^ (bi as u64).wrapping_mul(0x9E37_79B9));
+                match catch(|| replay_sub(&env, &mut mint, &mut out, b, &mut brng)) {
+                    Ok(()) => {}
+                    Err(p) => out.violation("*", "subscription-panics", p, b.clone()),
+                }
+            }
+            Some("class") => match catch(|| replay_class(&env, &mut mint, &mut out, b, &mut rng, limit)) {
+                Ok(()) => {}
+                Err(p) => out.violation("*", "subscription-panics", p, b.clone()),
+            },
+            _ => {
+                eprintln!("unknown behaviour kind: {b}");
+                std::process::exit(2);
+            }
+        }
+    }
+    out.write(args);
+}
+
+/// (result, id) of a spec call: "yield" id | "parked" | "done"
+fn spec_calls(steps: &[Value]) -> BTreeMap<usize, (String, u64)> {
+    // index of the step that starts a poll_next call -> result of the call's last inner poll
+    let mut calls = BTreeMap::new();
+    let mut cur: Option<usize> = None;
+    for (i, s) in steps.iter().enumerate() {
+        if s["ev"] != "Poll" {
+            continue;
+        }
+        if s["start"].as_bool().unwrap() {
+            cur = Some(i);
+        }
+        let res = match s["res"].as_str().unwrap() {
+            "yield" => "yield",
+            "empty" => "parked",
+            "closed" => "done",
+            _ => "inside", // reject / lagged: the call goes on
+        };
+        if let Some(c) = cur {
+            calls.insert(c, (res.to_string(), s["id"].as_u64().unwrap_or(0)));
+        }
+    }
+    calls
+}
+
+fn take(t: Turn, mint: &Mint, s: &EphStream, ledger: &Ledger, yielded: &mut Vec<u64>, c16: &mut Option<(String, String)>) -> (String, u64) {
+    match t {
+        Turn::Yield(m) => {
+            let (id, verdict) = ledger.judge(mint, s.topic, &m);
+            if let Judged::Forged(sig, detail) = verdict {
+                c16.get_or_insert((sig, detail));
+            }
+            yielded.push(id);
+            ("yield".to_string(), id)
+        }
+        Turn::Parked => ("parked".to_string(), 0),
+        Turn::Done => ("done".to_string(), 0),
+        Turn::Spinning => ("spinning".to_string(), 0),
+    }
+}
+
+fn replay_sub(env: &Env, mint: &mut Mint, out: &mut Outcome, b: &Value, rng: &mut Rng) {
+    out.eval();
+    let cap = b["cap"].as_u64().unwrap() as usize;
+    let steps = b["steps"].as_array().expect("steps");
+    let calls = spec_calls(steps);
+    let me = SigningKey::from_bytes(&[0xC3; 32]);
+    let mut s = env.stream(&me, cap);
+    s.mark_spawned();
+    let mut ledger = Ledger::default();
+    let mut yielded: Vec<u64> = Vec::new();
+    let mut skipped_then_valid = false;
+    let mut seen_skip = false;
+    let mut diverged: Option<(String, String)> = None; // first conformance failure (signature, detail)
+    let mut c16: Option<(String, String)> = None;
+
+    for (i, step) in steps.iter().enumerate() {
+        match step["ev"].as_str().unwrap() {
+            "Send" => {
+                let cls = step["cls"].as_str().unwrap();
+                let id = step["id"].as_u64().unwrap();
+                let (orig, item) = mint.one(env, cls, id, rng);
+                ledger.add(id, cls, orig, &item);
+                out.count(&format!("sent:{cls}"));
+                s.send(item.bytes);
+            }
+            "Close" => {
+                s.close();
+            }
+            "Poll" => {
+                match step["res"].as_str().unwrap() {
+                    "reject" | "lagged" => seen_skip = true,
+                    "yield" if seen_skip => skipped_then_valid = true,
+                    _ => {}
+                }
+                let Some((exp_res, exp_id)) = calls.get(&i) else { continue }; // inside a call
+                if diverged.is_some() {
+                    continue;
+                }
+                if !s.runnable() {
+                    diverged = Some((
+                        "pending-without-wakeup".into(),
+                        format!(
+                            "step {i}: the specification's task is runnable (expects {exp_res} {exp_id}) but the real task returned \
+                             Poll::Pending earlier and its waker was never woken; yielded so far {yielded:?}"
+                        ),
+                    ));
+                    continue;
+                }
+                let got = take(s.turn(), mint, &s, &ledger, &mut yielded, &mut c16);
+                out.count(&format!("turn:{}", got.0));
+                if got != (exp_res.clone(), *exp_id) {
+                    let sig = if got.0 == "parked" && exp_res != "parked" {
+                        "pending-without-wakeup"
+                    } else {
+                        "subscription-differs-from-spec"
+                    };
+                    diverged = Some((
+                        sig.into(),
+                        format!("step {i}: executor turn on the real subscription ended with {got:?}, specification says ({exp_res:?}, {exp_id})"),
+                    ));
+                }
+            }
+            other => {
+                eprintln!("unknown step {other}");
+                std::process::exit(2);
+            }
+        }
+    }
+    // let the real task run for as long as an executor would run it
+    let mut guard = 0;
+    while s.runnable() && guard < 10_000 {
+        guard += 1;
+        let _ = take(s.turn(), mint, &s, &ledger, &mut yielded, &mut c16);
+    }
+    let exp_yielded: Vec<u64> = b["yielded"].as_array().unwrap().iter().map(|v| v.as_u64().unwrap()).collect();
+    let missing: Vec<u64> = exp_yielded.iter().copied().filter(|id| !yielded.contains(id)).collect();
+    if skipped_then_valid {
+        out.mark_distinct(b["steps"].to_string() + &cap.to_string());
+    }
+    if let Some((sig, detail)) = c16 {
+        out.violation("C16", &sig, detail, b.clone());
+    }
+    if !missing.is_empty() {
+        // property level (C17): a valid message was available, the executor has nothing left to run, never yielded
+        out.violation(
+            "C17",
+            "valid-message-never-yielded",
+            format!(
+                "valid items {missing:?} were delivered and not overwritten by the channel, the task is parked (runnable={}, done={}) \
+                 and they were never yielded; yielded {yielded:?}; first divergence: {diverged:?}",
+                s.runnable(),
+                s.done
+            ),
+            b.clone(),
+        );
+    } else if let Some((sig, detail)) = diverged {
+        out.violation("C17", &sig, detail, b.clone());
+    } else if yielded != exp_yielded || s.done != b["done"].as_bool().unwrap() {
+        out.violation(
+            "C17",
+            "subscription-differs-from-spec",
+            format!("yielded {yielded:?} done={}, specification says {exp_yielded:?} done={}", s.done, b["done"]),
+            b.clone(),
+        );
+    } else {
+        out.sample(b.clone());
+    }
+}
+
+/// Runs the real task the way an executor would until it parks / ends; returns what it yielded.
+fn run_task(s: &mut EphStream) -> Vec<EphemeralMessage<String>> {
+    let mut got = Vec::new();
+    let mut guard = 0;
+    while s.runnable() && guard < 1000 {
+        guard += 1;
+        if let Turn::Yield(m) = s.turn() {
+            got.push(m);
+        }
+    }
+    got
+}
+
+fn replay_class(env: &Env, mint: &mut Mint, out: &mut Outcome, b: &Value, rng: &mut Rng, limit: Option<usize>) {
+    let cls = b["cls"].as_str().unwrap();
+    let accept = b["accept"].as_bool().unwrap();
+    let me = SigningKey::from_bytes(&[0xC3; 32]);
+    let fresh = |env: &Env| {
+        let mut s = env.stream(&me, 16);
+        s.mark_spawned();
+        // park the task on the empty channel first, so that every delivery has to wake it
+        let _ = s.turn();
+        s
+    };
+    let mut s = fresh(env);
+    let id = 1000;
+    let (orig, mut items) = mint.variants(env, cls, id, rng, limit);
+    let with_verdict = items.len();
+    if cls == "bitflip_any" {
+        items.extend(header_flips(&orig));
+    }
+    for (k, item) in items.into_iter().enumerate() {
+        let verdict_free = k >= with_verdict;
+        out.eval();
+        out.mark_distinct(format!("{cls}/{}", item.variant));
+        out.count(&format!("class:{cls}"));
+        let mut ledger = Ledger::default();
+        ledger.add(id, cls, orig.clone(), &item);
+        let case = json!({"kind": "class", "cls": cls, "accept": accept, "variant": item.variant, "bytes": hex(&item.bytes)});
+        s.send(item.bytes.clone());
+        let got = run_task(&mut s);
+        match (got.first(), accept) {
+            (Some(m), _) => match ledger.judge(mint, s.topic, m).1 {
+                Judged::Authentic => out.sample(case.clone()),
+                Judged::SameFieldsAsSigned => out.count(&format!("accepted-encoding-variant:{cls}/{}", item.variant)),
+                Judged::Forged(sig, detail) => out.violation("C16", &sig, detail, case.clone()),
+            },
+            (None, _) if verdict_free => out.count("header-flip-rejected"),
+            (None, true) => out.violation(
+                "C16",
+                "authentic-message-not-yielded",
+                format!("class {cls} variant {}: not yielded (task runnable={}, done={})", item.variant, s.runnable(), s.done),
+                case.clone(),
+            ),
+            (None, false) => out.sample(case.clone()),
+        }
+        // C17 on every single variant: whatever was delivered, the next intact message must come out
+        let probe_id = id + 1;
+        let (porig, mut probe) = mint.variants(env, "intact", probe_id, rng, None);
+        let probe = probe.remove(0);
+        let mut pl = Ledger::default();
+        pl.add(probe_id, "intact", porig, &probe);
+        s.send(probe.bytes);
+        let reached = run_task(&mut s).iter().any(|m| matches!(pl.judge(mint, s.topic, m), (pid, Judged::Authentic) if pid == probe_id));
+        if !reached {
+            out.count("stuck-after-item");
+            out.violation(
+                "C17",
+                "valid-message-never-yielded",
+                format!(
+                    "after an item of class {cls} (variant {}) the next intact message was delivered but never yielded: \
+                     the task is parked (runnable={}) and no wake-up is registered",
+                    item.variant,
+                    s.runnable()
+                ),
+                case,
+            );
+            s = fresh(env);
+        }
+    }
+}
+
+fn hex(b: &[u8]) -> String {
+    b.iter().map(|x| format!("{x:02x}")).collect()
+}
+
+// ------------------------------------------------------------------------------------------------
+// record
+
+const INNER_POLL: &str = "ephemeral.sub.inner_poll";
+
+/// Number of inner polls (`GossipSubscription::poll_next`) since the last call.
+fn inner_polls() -> usize {
+    p2panda_core::verif::drain().iter().filter(|(_, e)| e == INNER_POLL).count()
+}
+
+const ALL_CLASSES: &[&str] = &[
+    "intact", "intact", "intact", "foreign_intact", "trailing_bytes", "flip_version", "version2_signed", "swap_key", "flip_sig",
+    "flip_ts", "flip_logical", "flip_body", "foreign_sig_keep_author", "truncated", "garbage", "wrong_body_type", "bitflip_any",
+];
+
+fn record(args: &Args) {
+    let mut rng = Rng::new(args.seed);
+    let n = if args.n > 0 { args.n } else { 50 };
+    let mut trace = TraceWriter::create(args.out.as_ref().expect("--out"));
+    let mut out = Outcome::new(
+        args,
+        "seeded random runs: channel capacity 1/2/4/8, random deliveries over all item classes (real bytes), closes and executor turns \
+         on the real subscription; one trace event per delivery / close / inner poll / return of poll_next",
+    );
+    let env = Env::new();
+    let mut mint = Mint::new(&env);
+    let me = SigningKey::from_bytes(&[0xC3; 32]);
+    for run in 0..n {
+        let cap = *rng.pick(&[1usize, 2, 4, 8]);
+        trace.event(json!({"ev": "Reset", "run": run, "cap": cap}));
+        let mut s = env.stream(&me, cap);
+        s.mark_spawned();
+        let _ = inner_polls();
+        let mut ledger = Ledger::default();
+        let mut id = 0u64;
+        let steps = rng.range(6, 30);
+        let burst = rng.range(1, 4); // how eager the network is compared to the executor
+        let mut step = 0;
+        let mut broken = false;
+        while step < steps || (s.runnable() && !broken) {
+            step += 1;
+            if step > 400 {
+                break;
+            }
+            let act_net = step <= steps && !s.closed() && rng.below(burst + 1) > 0;
+            if act_net {
+                if rng.chance(1, 25) {
+                    let woke = s.close();
+                    trace.event(json!({"ev": "Close", "woke": woke}));
+                } else {
+                    id += 1;
+                    let cls = *rng.pick(ALL_CLASSES);
+                    let (orig, item) = mint.one(&env, cls, id, &mut rng);
+                    ledger.add(id, cls, orig, &item);
+                    out.count(&format!("sent:{cls}"));
+                    let woke = s.send(item.bytes);
+                    trace.event(json!({"ev": "Send", "cls": cls, "id": id, "woke": woke}));
+                }
+                continue;
+            }
+            if !s.runnable() {
+                continue;
+            }
+            // one real poll_next call
+            out.eval();
+            let r = match catch(|| s.poll_once()) {
+                Ok(r) => r,
+                Err(p) => {
+                    out.violation("*", "subscription-panics", p, json!({"run": run}));
+                    broken = true;
+                    break;
+                }
+            };
+            let inner = inner_polls();
+            for _ in 1..inner {
+                trace.event(json!({"ev": "InnerSkip"}));
+            }
+            match r {
+                Poll::Ready(Some(m)) => {
+                    let (mid, verdict) = ledger.judge(&mint, s.topic, &m);
+                    if let Judged::Forged(sig, detail) = verdict {
+                        out.violation("C16", &sig, detail, json!({"run": run, "id": mid}));
+                    }
+                    out.mark_distinct(format!("{run}:{mid}"));
+                    trace.event(json!({"ev": "InnerLast", "ret": "yield", "id": mid}));
+                }
+                Poll::Ready(None) => trace.event(json!({"ev": "InnerLast", "ret": "none", "id": 0})),
+                Poll::Pending => trace.event(json!({"ev": "InnerLast", "ret": "pending", "id": 0})),
+            }
+            // what the executor knows after the call: parked = Pending and nobody woke the waker
+            let parked = !s.done && !s.runnable();
+            trace.event(json!({"ev": "Return", "parked": parked, "done": s.done}));
+        }
+        // property-level end check of the run (C17): everything valid that the channel did not overwrite was yielded
+        // is left to the trace specification (ParkedOnlyWhenDrained on the final state).
+    }
+    let (events, runs) = trace.finish();
+    out.set_trace(events, runs);
+    out.write(args);
+}
+
+// keep the unused-import lint quiet for items only used in type positions
+#[allow(dead_code)]
+fn _types(_: &dyn Future<Output = ()>) {}
